@@ -107,18 +107,18 @@ func genC21Seq(rg *vkit.Rand, s *c21Spec) {
 		roll := rg.Intn(100)
 		seq++
 		switch {
-		case roll < 26:
+		case roll < 22:
 			st := putStep(rg, b, k, seq)
 			m.set(b, k, fake())
 			s.Steps = append(s.Steps, st)
-		case roll < 36:
+		case roll < 33:
 			// delete of an existing key (mostly) or of a key that does not exist
 			if len(present) > 0 && rg.Chance(80) {
 				k = vkit.Pick(rg, present)
 			}
 			m.set(b, k, nil)
 			s.Steps = append(s.Steps, c21Step{Op: "delete", Bucket: b, Key: k})
-		case roll < 39:
+		case roll < 37:
 			var ks []string
 			for _, x := range c21Keys {
 				if rg.Chance(50) {
@@ -132,7 +132,7 @@ func genC21Seq(rg *vkit.Rand, s *c21Spec) {
 				m.set(b, x, nil)
 			}
 			s.Steps = append(s.Steps, c21Step{Op: "delete-multi", Bucket: b, Keys: ks})
-		case roll < 47:
+		case roll < 44:
 			st := putStep(rg, b, k, seq)
 			st.Op = "cond-put"
 			exists := m.get(b, k) != nil
@@ -149,7 +149,7 @@ func genC21Seq(rg *vkit.Rand, s *c21Spec) {
 				st.Cond = "match-bogus"
 			}
 			s.Steps = append(s.Steps, st)
-		case roll < 53:
+		case roll < 51:
 			if len(present) == 0 {
 				continue
 			}
@@ -571,7 +571,7 @@ func (c *c21Run) exec(client int, st c21Step) c21Rec {
 	}
 	rec.Ret = tick()
 	if os.Getenv("VERIF_TRACE") != "" {
-		fmt.Fprintf(os.Stderr, "%s c%d %-14s %s/%s -> %s (pending before: %d)\n", time.Now().Format("15:04:05.000"), client, st.Op, st.Bucket, st.Key, rec.Out, pendingBefore)
+		fmt.Fprintf(os.Stderr, "%s c%d %-14s %s/%s size=%d cond=%s -> %s (pending before: %d)\n", time.Now().Format("15:04:05.000"), client, st.Op, st.Bucket, st.Key, st.Size, st.Cond, rec.Out, pendingBefore)
 	}
 	if pendingBefore > 0 {
 		c.res.count("ops_started_with_pending_entries", 1)
